@@ -496,6 +496,47 @@ fn try_from_bare_name() -> i32 {
     code
 }
 
+/// c10_listing_dir_gone: the log directory is removed externally while the logger runs; listing the
+/// log files and the next log call (which rotates: TimestampsDirect, size limit exceeded) must not panic.
+fn dir_gone() -> i32 {
+    use flexi_logger::writers::FileLogWriter;
+    use flexi_logger::{Cleanup, Criterion, FileSpec, LogfileSelector, Naming};
+    let dir = std::env::temp_dir().join(format!("verif_replay_dirgone_{}", std::process::id()));
+    let _ = std::fs::remove_dir_all(&dir);
+    let flw = FileLogWriter::builder(FileSpec::default().directory(&dir).basename("b").suppress_timestamp())
+        .rotate(Criterion::Size(10), Naming::TimestampsDirect, Cleanup::Never)
+        .try_build()
+        .expect("build");
+    let rec = |flw: &FileLogWriter| {
+        let mut now = DeferredNow::new();
+        let _ = flw.write(&mut now, &log::Record::builder().level(Level::Info).target("t").args(format_args!("a line longer than ten bytes")).build());
+    };
+    rec(&flw);
+    std::fs::remove_dir_all(&dir).unwrap();
+    let r1 = std::panic::catch_unwind(std::panic::AssertUnwindSafe(|| {
+        let _ = flw.existing_log_files(&LogfileSelector::default());
+    }));
+    // a fresh writer for the log-call path (the first panic poisons the state mutex of `flw`)
+    let dir_b = std::env::temp_dir().join(format!("verif_replay_dirgone_b_{}", std::process::id()));
+    let _ = std::fs::remove_dir_all(&dir_b);
+    let flw2 = FileLogWriter::builder(FileSpec::default().directory(&dir_b).basename("b").suppress_timestamp())
+        .rotate(Criterion::Size(10), Naming::TimestampsDirect, Cleanup::Never)
+        .try_build()
+        .expect("build");
+    rec(&flw2);
+    std::fs::remove_dir_all(&dir_b).unwrap();
+    let r2 = std::panic::catch_unwind(std::panic::AssertUnwindSafe(|| rec(&flw2)));
+    let _ = std::fs::remove_dir_all(&dir);
+    let _ = std::fs::remove_dir_all(&dir_b);
+    if r1.is_err() || r2.is_err() {
+        println!("REPRODUCED: log directory removed externally: existing_log_files panicked: {}, rotating log call panicked: {}", r1.is_err(), r2.is_err());
+        1
+    } else {
+        println!("no panic");
+        0
+    }
+}
+
 fn main() {
     let args: Vec<String> = std::env::args().collect();
     if args.len() < 3 {
@@ -512,6 +553,7 @@ fn main() {
         "foreign_listing" => foreign_listing(&args[2]),
         "ts_listing_short_name" => ts_listing_short_name(&vals),
         "try_from_bare_name" => try_from_bare_name(),
+        "dir_gone" => dir_gone(),
         other => {
             eprintln!("unknown replayer {other}");
             3
